@@ -16,6 +16,11 @@
 
 package service
 
+import (
+	"net"
+	"time"
+)
+
 // Exports for the verification harness (/verif/harness); compiled only with -tags verif.
 
 // VerifCipherEntry is one element of a CipherList in its current order.
@@ -40,3 +45,18 @@ func VerifCipherListOrder(cl CipherList) []VerifCipherEntry {
 	}
 	return out
 }
+
+// VerifNatConn exposes a natconn (deadline bookkeeping of one UDP association) built over an
+// arbitrary PacketConn.
+type VerifNatConn struct{ c *natconn }
+
+// VerifNewNatConn wraps pc as the outbound socket of an association with the given NAT timeout.
+func VerifNewNatConn(pc net.PacketConn, timeout time.Duration) *VerifNatConn {
+	return &VerifNatConn{&natconn{PacketConn: pc, defaultTimeout: timeout}}
+}
+
+// WriteTo sends through the association (updates the deadline like a client datagram does).
+func (v *VerifNatConn) WriteTo(b []byte, addr net.Addr) (int, error) { return v.c.WriteTo(b, addr) }
+
+// ReadFrom receives through the association (may trigger the DNS fast close).
+func (v *VerifNatConn) ReadFrom(b []byte) (int, net.Addr, error) { return v.c.ReadFrom(b) }
